@@ -3,6 +3,7 @@ import WmModel.GcConf
 import WmModel.GcMon
 import WmModel.GcTopicConf
 import WmModel.GcRegConf
+import WmModel.GcDecConf
 open Wm
 
 /-- `sub` streams: model = conformance with M_sub (subset construction), no property verdict of its own here;
@@ -21,6 +22,12 @@ def handle (line : String) : String :=
   | "P" :: "reg" :: _ => "ok"
   | "M" :: "topic" :: toks => GcTopicConf.checkTopic toks
   | "P" :: "topic" :: _ => "ok"
+  -- `dec` streams: model = conformance with M_dec; the property part of the record is the watchdog of the harness
+  | "M" :: "dec" :: toks => GcDecConf.checkDec (toks.filter (fun t => !t.startsWith "stuck:"))
+  | "P" :: "dec" :: toks =>
+    match toks.find? (fun t => t.startsWith "stuck:") with
+    | some t => "violated:" ++ (t.drop 6).toString
+    | none => "ok"
   | "M" :: "top" :: _ => "ok"
   | "P" :: "top" :: toks => GcMon.runMon GcMon.monC07 toks
   | _ => "bad-op"
